@@ -339,6 +339,72 @@ class _ArgHoister(ast.NodeTransformer):
         return node
 
 
+class _Annotator(ast.NodeTransformer):
+    """every parameter without annotation gets one (`object`), every function a return annotation: type hints change no
+    behaviour"""
+
+    def visit_FunctionDef(self, node):
+        self.generic_visit(node)
+        for a in node.args.posonlyargs + node.args.args + node.args.kwonlyargs:
+            if a.annotation is None and a.arg not in ("self", "cls"):
+                a.annotation = ast.Name(id="object", ctx=ast.Load())
+        if node.returns is None and node.name != "__init__":
+            node.returns = ast.Name(id="object", ctx=ast.Load())
+        return node
+
+
+class _EntryLogger(ast.NodeTransformer):
+    """a debug-log call at the start of every function with a body of more than one statement (after the docstring): an added
+    observer that no property mentions"""
+
+    def visit_FunctionDef(self, node):
+        self.generic_visit(node)
+        body = node.body
+        k = 1 if body and isinstance(body[0], ast.Expr) and isinstance(body[0].value, ast.Constant) and isinstance(body[0].value.value, str) else 0
+        if len(body) - k > 1 and not any(isinstance(n, (ast.Yield, ast.YieldFrom)) for n in ast.walk(node)):
+            call = ast.Expr(value=ast.Call(func=ast.Attribute(value=ast.Call(func=ast.Attribute(value=ast.Name(id="logging", ctx=ast.Load()), attr="getLogger", ctx=ast.Load()), args=[ast.Constant(value="discretisedfield")], keywords=[]), attr="debug", ctx=ast.Load()),
+                                           args=[ast.Constant(value=f"enter {node.name}")], keywords=[]))
+            node.body = body[:k] + [call] + body[k:]
+        return node
+
+    def visit_Module(self, node):
+        self.generic_visit(node)
+        k = 1 if node.body and isinstance(node.body[0], ast.Expr) and isinstance(node.body[0].value, ast.Constant) else 0
+        node.body = node.body[:k] + [ast.Import(names=[ast.alias(name="logging")])] + node.body[k:]
+        return node
+
+
+class _ConstExtractor(ast.NodeTransformer):
+    """float literals inside functions become module-level constants (`_K1 = 0.5` ... `x * _K1`): naming a magic number"""
+
+    def __init__(self):
+        self.consts = {}
+        self.depth = 0
+
+    def visit_FunctionDef(self, node):
+        self.depth += 1
+        self.generic_visit(node)
+        self.depth -= 1
+        return node
+
+    def visit_Constant(self, node):
+        if self.depth and isinstance(node.value, float) and node.value not in (0.0, 1.0):
+            name = self.consts.setdefault(repr(node.value), f"_K{len(self.consts) + 1}")
+            return ast.copy_location(ast.Name(id=name, ctx=ast.Load()), node)
+        return node
+
+    def visit_Module(self, node):
+        self.generic_visit(node)
+        k = 0
+        while k < len(node.body) and (isinstance(node.body[k], (ast.Import, ast.ImportFrom)) or
+                                      (isinstance(node.body[k], ast.Expr) and isinstance(node.body[k].value, ast.Constant))):
+            k += 1
+        defs = [ast.Assign(targets=[ast.Name(id=n, ctx=ast.Store())], value=ast.Constant(value=float(v)), lineno=1, col_offset=0)
+                for v, n in self.consts.items()]
+        node.body = node.body[:k] + defs + node.body[k:]
+        return node
+
+
 def _apply(cls):
     def run(repo_root):
         out = {}
@@ -354,6 +420,7 @@ def _apply(cls):
 
 
 # the rewrites every check must survive (a failure fails the thorough tier)
-GATED = {"unnest-else", "nest-else", "split-guards", "reverse-keywords", "hoist-arguments"}
+GATED = {"unnest-else", "nest-else", "split-guards", "reverse-keywords", "hoist-arguments", "annotate", "log-entry", "extract-constants"}
 EXTRA.update({"unnest-else": _apply(_ElseUnnester), "nest-else": _apply(_ElseNester), "split-guards": _apply(_GuardSplitter),
-              "reverse-keywords": _apply(_KwReverser), "hoist-arguments": _apply(_ArgHoister)})
+              "reverse-keywords": _apply(_KwReverser), "hoist-arguments": _apply(_ArgHoister),
+              "annotate": _apply(_Annotator), "log-entry": _apply(_EntryLogger), "extract-constants": _apply(_ConstExtractor)})
